@@ -1152,6 +1152,131 @@ def loaderOf (ext : Str) : Option Fmt :=
 def loadContent (expand : Str → Str) (useEnv : Bool) (content : Str) : Str :=
   if useEnv then expand content else content
 
+/-! ### `buildStructFieldsInfo` WITH its merging (`addOrMergeFields`, `mergeFields`), round 5c
+
+`infoFields` lists the flattened fields; the code adds them one after the other into a map and, when a lower-cased key
+is already there, MERGES (two struct-typed fields under one key whose children are disjoint) or reports a conflict
+(a map child, a leaf on either side, a repeated grand-child).  `none` = `newConflictKeyError`.  Nested levels are built
+by `infoField` / `infoOf` (their own conflicts: `fieldsConflict`). -/
+
+def IM.isEmpty : IM → Bool
+  | .nil => true
+  | _ => false
+
+def IM.set : IM → Str → Info → IM
+  | .nil, _, _ => .nil
+  | .cons k i t, q, n => if k = q then .cons k n t else .cons k i (t.set q n)
+
+/-- the loop of `mergeFields`: every new child must be absent. -/
+def mergeChildren (prev : IM) : IM → Option IM
+  | .nil => some prev
+  | .cons k i t => if (prev.get? k).isSome then none else mergeChildren (prev.append (.cons k i .nil)) t
+
+/-- `mergeFields(prev, children)`; `none` = `newConflictKeyError`. -/
+def mergeFieldsM (prev : Info) (children : IM) : Option Info :=
+  match prev with
+  | .node pc => if pc.isEmpty || children.isEmpty then none else (mergeChildren pc children).map .node
+  | .mapOf _ => none
+
+/-- `addOrMergeFields(info, key, child)`. -/
+def addOrMerge (info : IM) (key : Str) (child : Info) : Option IM :=
+  match info.get? key with
+  | some prev =>
+    match child with
+    | .mapOf _ => none
+    | .node cc => (mergeFieldsM prev cc).map (info.set key)
+  | none => some (info.append (.cons key child .nil))
+
+/-- `buildStructFieldsInfo`: the (flattened) fields added one after the other. -/
+def addAll : IM → IM → Option IM
+  | acc, .nil => some acc
+  | acc, .cons k i t =>
+    match addOrMerge acc k i with
+    | none => none
+    | some acc' => addAll acc' t
+
+def infoFieldsM (fs : Fields) : Option IM := addAll .nil (infoFields fs)
+
+/-! ### the decisions of the unmarshaller's dispatch functions (round 5c)
+
+The routing that `unmarshalStruct` / `withValue` / `withoutValue` implement, as first-order decision functions; `Tie.lean`
+proves the Go conditions (translated by `c17CondsSw`, in source order) equal to them for ALL arguments, `Props.lean`
+proves that the model follows them. -/
+
+/-- the `reflect.Kind`s the dispatch looks at (a `json.Number` and a string both have kind String). -/
+inductive RK where
+  | map | slice | string | struct | other
+  deriving DecidableEq, Repr
+
+/-- `processFieldNotFromString`: which filler a (value kind, dereferenced field kind) pair reaches. -/
+inductive NfsRoute where
+  | structFromMap | fillSlice | fillMap | mapFromString | sliceFromString | duration | unmarshalerStruct | primitive
+  deriving DecidableEq, Repr
+
+def nfsRoute (vk tk : RK) (isDuration implUnm : Bool) : NfsRoute :=
+  match vk, tk with
+  | .map, .struct => .structFromMap
+  | .slice, .slice => .fillSlice
+  | .map, .map => .fillMap
+  | .string, .map => .mapFromString
+  | .string, .slice => .sliceFromString
+  | .string, tk => if isDuration then .duration else if tk = .struct && implUnm then .unmarshalerStruct else .primitive
+  | _, _ => .primitive
+
+def kindOfJ : J → RK
+  | .obj _ => .map
+  | .arr _ => .slice
+  | .nilArr => .slice
+  | .str _ => .string
+  | .num _ => .string
+  | _ => .other
+
+/-- the kind of the DEREFERENCED field type (`Deref(fieldType).Kind()`). -/
+def kindOfTy : Ty → RK
+  | .ptr t => kindOfTy t
+  | .struct _ => .struct
+  | .slice _ => .slice
+  | .map _ => .map
+  | .prim .string => .string
+  | .prim _ => .other
+
+/-- `processNamedField`: what happens to one named field. -/
+inductive FieldRoute where
+  | skip | env | noValue | value
+  deriving DecidableEq, Repr
+
+def fieldRoute (exported ignored hasEnvVar envSet fillDefault hasValue : Bool) : FieldRoute :=
+  if !exported || ignored then .skip
+  else if hasEnvVar && envSet then .env
+  else if fillDefault || !hasValue then .noValue
+  else .value
+
+/-- the route the model's `unmarshalStruct` takes for a field (exported, never `-`, no fillDefault). -/
+def modelFieldRoute (o : Opts) (f : FMeta) (found : Option J) : FieldRoute :=
+  fieldRoute true false (decide (f.envVar ≠ [])) (decide (envLookup o.env f.envVar ≠ [])) false found.isSome
+
+/-- what `unmarshalStruct` looks up for a field (canonical key, parent chain, `WithFromArray`). -/
+def modelFound (o : Opts) (ps : List JM) (f : FMeta) (t : Ty) (m : JM) : Option J :=
+  if o.fromArray then (getValue o f.inherit ps m (if o.canon then lower f.tagKey else f.tagKey)).map (fromArrayAdj t.isSlice)
+  else getValue o f.inherit ps m (if o.canon then lower f.tagKey else f.tagKey)
+
+/-- `WithFromArray` inside `processNamedField`: the first element is taken iff the field is no slice / array, the value
+is one, and it is not empty. -/
+def fromArrayTakesFirst (fromArray valueNil fieldIsSeq valueIsSeq : Bool) (len : Int) : Bool :=
+  fromArray && !valueNil && !fieldIsSeq && valueIsSeq && decide (len > 0)
+
+def JL.lengthInt : JL → Int
+  | .nil => 0
+  | .cons _ t => t.lengthInt + 1
+
+def jSeqLen : J → Int
+  | .arr l => l.lengthInt
+  | _ => 0
+
+/-- `processNamedFieldWithValue` on a nil value, and the from-string decision for primitive kinds. -/
+def nilValueAccepted (optional : Bool) : Bool := optional
+def primFromString (uFromString fFromString : Bool) : Bool := uFromString || fFromString
+
 /-! ### the option LIST of the mapping entry points
 
 `mapping.UnmarshalJsonBytes(content, v, opts...)`: `getJsonUnmarshaler` builds `NewUnmarshaler(jsonTagKey, opts...)`, which
